@@ -22,11 +22,13 @@ CONFIG = {
              'sampled pairs, random/PCT) and free-running: with a logical clock, a call invoked after the enclosing subbuild/build_file call returned must '
              'raise RuntimeError; a call that completed normally must be part of the record (mutating the path only '
              'it observed forces re-execution of the owner in the next build) and a call that was told "already '
-             'finished" must not be (that mutation forces nothing); in (a) every owner first makes every query itself and in '
+             'finished" must not be (that mutation forces nothing); a complex call (build_file/subbuild) whose own function returned after the close must not complete normally '
+             '(counter complex_straggler_function_spans_close); (b\') directed, real threads ordered by events: a nested subbuild/build_file invoked before the owner returns whose function '
+             'reads a path and raises after the owner returned must be rejected and must not be part of the owner\'s record (next build reuses the owner after that path was deleted); in (a) every owner first makes every query itself and in '
              'half of (b) the owner makes the straggler\'s very call before forking, so late calls REPEAT observations the '
              'same instance already recorded (a memo of recorded observations must not bypass the fence); evaluations = late calls + schedules judged; '
              'distinct_nontrivial = distinct (owner kind, method, outcome, recorded?) x switch sequences'),
-    'gates': ['orphan_late_calls', 'focused_lock_pairs', 'base_exception_late_calls', 'primed_straggler_runs', 'complex_stragglers', 'complex_straggler_after_close', 'complex_straggler_function_spans_close', 'late_calls', 'root_late_calls', 'straggler_schedules', 'straggler_ok_recorded',
+    'gates': ['orphan_late_calls', 'focused_lock_pairs', 'base_exception_late_calls', 'primed_straggler_runs', 'complex_stragglers', 'complex_straggler_after_close', 'spanning_raise_runs', 'spanning_raise_next_build_probes', 'late_calls', 'root_late_calls', 'straggler_schedules', 'straggler_ok_recorded',
               'straggler_rejected', 'straggler_single_layers', 'next_build_probes'],
 }
 
@@ -483,6 +485,66 @@ def run_straggler(sh, rng, owner, method, strategy_list, free=False):
             w.discard(tok)
 
 
+def run_spanning_raise(sh):
+    """A nested subbuild / build_file is invoked on the owner's builder by another thread BEFORE the owner
+    returns; its function is still running when the owner's call returns (the record is closed), then makes
+    an observation nobody else makes and raises.  Real threads, ordered by events (no scheduler): the call
+    must be rejected with RuntimeError and - rule (4) - must not be part of the owner's record: changing the
+    path only it observed forces nothing in the next build."""
+    for owner in ('sb', 'bf'):
+        for method in ('subbuild_raise', 'build_file_raise'):
+            fork = ['x', 'fork_late', method, 'late/out', 't1']
+            if owner == 'sb':
+                funcs = {'S': {'kind': 'sb', 'idx': 1, 'body': [['q', 'exists', 'in0', 'M'], fork]}}
+                root = [['sb', 'S', {'catch': True}], ['x', 'late_release'], ['q', 'is_file', 'in0', 'M']]
+            else:
+                funcs = {'F': {'kind': 'bf', 'idx': 1, 'body': [['q', 'exists', 'in0', 'M'], ['write', ''], fork]}}
+                root = [['bf', 'o/x', 'F', {'catch': True}], ['x', 'late_release'], ['q', 'is_file', 'in0', 'M']]
+            program = {'funcs': funcs, 'roots': [root]}
+            tag = 'spanning|%s|%s' % (owner, method)
+            with Scratch('g') as sc:
+                w = World(sc)
+                w.ext_write('in0', b'input zero')
+                w.ext_write('probe', b'probe file')
+
+                def join_free(rctx, sr):
+                    for t in getattr(rctx, 'free_threads', []):
+                        t.join(20)
+                hooks = {'after_api': join_free, 'event_clock': True}
+                sr = w.build(program, program['roots'][0], {}, label=0, hooks=hooks)
+                sh.evaluations += 1
+                case = case_of(w, program)
+                if not sr.rctx.stragglers:
+                    sh.inconclusive.append('spanning straggler did not run')
+                    continue
+                st = sr.rctx.stragglers[0]
+                view = {k: v for k, v in st.items() if k != 'thread'}
+                t_done = [t for (k, wh, t) in sr.rctx.marks if k == 'done'][0]
+                if st.get('fn_timeout') or st.get('t_fn_ret') is None or st['t_fn_ret'] <= t_done:
+                    sh.inconclusive.append('spanning straggler was not ordered as intended')
+                    continue
+                sh.count('spanning_raise_runs')
+                out = st['out']
+                if out[0] == 'ok':
+                    sh.violation('complex_call_completed_after_close|' + tag, {'straggler': view}, case)
+                    continue
+                if out[1] != 'RuntimeError':
+                    sh.violation('straggler_unexpected_exception|%s|%s' % (tag, out[1]), {'straggler': view}, case)
+                    continue
+                bad = [d for d in sr.divs if d['kind'] in KINDS]
+                if bad:
+                    sh.violation(signature(bad[0]) + '|' + tag, detail(bad[0]), case)
+                    continue
+                sh.nt(('spanning', owner, method, out[1]))
+                w.ext_delete('probe')
+                sr2 = w.build(program, program['roots'][0], {}, label=0, threads=False, hooks={'after_api': join_free})
+                sh.count('spanning_raise_next_build_probes')
+                inv = [f for (_t, _k, f) in sr2.rctx.log]
+                if ('S' if owner == 'sb' else 'F') in inv:
+                    sh.violation('rejected_observation_attached_to_record|' + tag,
+                                 {'straggler': view, 'invoked_next': inv}, case_of(w, program))
+
+
 def run_shard(sh):
     rng = random.Random((sh.seed * 1000003 + sh.idx) & 0xffffffff)
     sched.install()
@@ -492,6 +554,8 @@ def run_shard(sh):
         run_base_exception_cases(sh)
     if sh.idx % 4 == 2:
         run_orphan_cases(sh)
+    if sh.idx % 4 == 3:
+        run_spanning_raise(sh)
     combos = [(o, m) for o in ('sb', 'bf', 'sb-raises', 'root') for m in QUERY_METHODS] + \
         [(o + '+p', m) for o in ('sb', 'bf', 'sb-raises', 'root') for m in QUERY_METHODS] + \
         [(o, m) for o in ('sb-bare', 'bf-bare') for m in QUERY_METHODS] + \
